@@ -33,3 +33,84 @@ def codec_eq(w):
     want = view(w["a"]) == view(w["b"])
     return {"reproduced": got != want,
             "detail": "a == b is %r but the messages are structurally %s" % (got, "equal" if want else "different")}
+
+
+VOCAB = {"State": ("Idle", "Ok", "Busy", "Alert"), "Permissions": ("ro", "wo", "rw"),
+         "SwitchRule": ("OneOfMany", "AtMostOne", "AnyOfMany"), "SwitchState": ("On", "Off"), "BLOBEnable": ("Never", "Also", "Only")}
+FIELD_VOCAB = {
+    "defTextVector": {"state": "State", "perm": "Permissions"}, "defNumberVector": {"state": "State", "perm": "Permissions"},
+    "defSwitchVector": {"state": "State", "perm": "Permissions", "rule": "SwitchRule"}, "defBLOBVector": {"state": "State", "perm": "Permissions"},
+    "defLightVector": {"state": "State"}, "setTextVector": {"state": "State"}, "setNumberVector": {"state": "State"},
+    "setSwitchVector": {"state": "State"}, "setBLOBVector": {"state": "State"}, "setLightVector": {"state": "State"},
+    "enableBLOB": {"value": "BLOBEnable"}, "oneLight": {"value": "State"}, "defSwitch": {"value": "SwitchState"},
+    "oneSwitch": {"value": "SwitchState"}, "defLight": {"value": "State"}}
+CHILD_TAG = {"defTextVector": "defText", "defNumberVector": "defNumber", "defSwitchVector": "defSwitch", "defBLOBVector": "defBLOB",
+             "defLightVector": "defLight", "setTextVector": "oneText", "setNumberVector": "oneNumber", "setSwitchVector": "oneSwitch",
+             "setBLOBVector": "oneBLOB", "setLightVector": "oneLight", "newTextVector": "oneText", "newNumberVector": "oneNumber",
+             "newSwitchVector": "oneSwitch", "newBLOBVector": "oneBLOB"}
+NUMBER_RE = r"[-+]?(\d+(\.\d*)?|\.\d+)([eE][-+]?\d+)?|[-+]?\d+[:; ]\d+(\.\d*)?([:; ]\d+(\.\d*)?)?"
+
+
+def nonconformities(obj, tag):
+    import re
+    out = []
+    for fld, voc in FIELD_VOCAB.get(tag, {}).items():
+        if getattr(obj, fld, None) not in VOCAB[voc]:
+            out.append("%s=%r is not in the %s vocabulary" % (fld, getattr(obj, fld, None), voc))
+    if tag in ("defNumber", "oneNumber") and obj.value is not None and not re.fullmatch(NUMBER_RE, str(obj.value)):
+        out.append("number value %r has no number syntax" % (obj.value,))
+    return out
+
+
+@kind("codec.parse")
+def codec_parse(w):
+    import xml.etree.ElementTree as ET
+    from indi.message import IndiMessage, checks, const
+    from indi.message.base import IndiMessagePart
+    what = w.get("what")
+    if what == "dictionary":
+        try:
+            checks.dictionary(w["value"], getattr(const, w["vocab"]))
+        except ValueError:
+            ok = w["value"] not in VOCAB[w["vocab"]]
+            return {"reproduced": not ok, "detail": "checks.dictionary rejected the vocabulary member %r" % (w["value"],)}
+        ok = w["value"] in VOCAB[w["vocab"]]
+        return {"reproduced": not ok, "detail": "checks.dictionary(%r, %s) accepted a value outside the vocabulary" % (w["value"], w["vocab"])}
+    if what == "number":
+        import re
+        try:
+            checks.number(w["value"])
+        except ValueError:
+            return {"reproduced": False, "detail": "rejected"}
+        v = w["value"]
+        ok = v is None or re.fullmatch("(%s)\n?" % NUMBER_RE, str(v)) is not None
+        return {"reproduced": not ok, "detail": "checks.number accepted %r" % (v,)}
+    tag = w["tag"]
+    if not isinstance(tag, str) or not tag or not (tag[0].isalpha() or tag[0] == "_"):
+        return {"reproduced": False, "detail": "witness tag %r is not an XML name" % (tag,)}
+    attrs = {k[5:]: v for k, v in w.items() if k.startswith("attr:") and v is not None}
+    try:
+        e = ET.Element(tag, attrs)
+        if w.get("text") is not None:
+            e.text = w["text"]
+        i = 0
+        while "child%d" % i in w:
+            ET.SubElement(e, w["child%d" % i], {"name": "c"})
+            i += 1
+        is_part = tag in ("defText", "defNumber", "defSwitch", "defLight", "defBLOB", "oneText", "oneNumber", "oneSwitch", "oneBLOB") or \
+            (tag == "oneLight" and False)
+        root = IndiMessagePart if is_part else IndiMessage
+        m = root.from_xml(e)
+    except Exception as ex:
+        return {"reproduced": False, "detail": "parse failed (allowed): %r" % (ex,)}
+    probs = nonconformities(m, tag)
+    if m.tag_name() != tag:
+        probs.append("parsed <%s> as %s" % (tag, m.__class__.__name__))
+    for c in getattr(m, "children", None) or ():
+        if not hasattr(c, "tag_name") or c.tag_name() != CHILD_TAG.get(tag):
+            probs.append("child %r is not a <%s>" % (c, CHILD_TAG.get(tag)))
+        else:
+            probs += nonconformities(c, c.tag_name())
+    if isinstance(getattr(m, "children", None), str) and m.children:
+        probs.append("children is the string %r" % (m.children,))
+    return {"reproduced": bool(probs), "detail": "; ".join(probs) or "parsed message is conformant"}
